@@ -31,6 +31,8 @@ SKELETONS: list[tuple[str, list[tuple]]] = [
     ("def-local", SHORT_PRE + [(0, "def"), (1, "local"), (1, "mark"), (1, "if"), (2, "local"), (1, "ret"), (0, "mark"), (0, "call", 6), (0, "mark")]),
     # a helper that calls a helper defined further down with a float (the callee's header may carry a trailing comment, blanks, ...)
     ("def-forward", SHORT_PRE + [(0, "def"), (1, "fwdret", 8), (0, "def"), (1, "retf"), (0, "mark"), (0, "call", 6), (0, "mark")]),
+    # a helper that calls itself, as a statement of its own inside a branch and directly in its body
+    ("def-recursive", SHORT_PRE + [(0, "def"), (1, "if"), (2, "call", 6), (2, "mark"), (1, "call", 6), (1, "ret"), (0, "call", 6), (0, "mark")]),
     ("try-except", SHORT_PRE + [(0, "try"), (1, "mark"), (1, "bright"), (0, "except", 6), (1, "mark"), (0, "mark")]),
     ("main-if-else", SHORT_PRE + [(0, "main"), (1, "mark"), (1, "if"), (2, "bright"), (2, "mark"), (1, "else"), (2, "mark"),
                                   (1, "mark"), (1, "sleep")]),
@@ -356,6 +358,15 @@ CATALOGUE: dict[str, dict] = {
     "augassign-name-import-prefix": {"s": ["v += {P}"], "rename": ("v", "importance")},
     "call-helper-import-prefix": {"s": ["helper({P})"], "rename": ("helper", "import_sample")},
     "call-helper-print-prefix": {"s": ["helper({P})"], "rename": ("helper", "printout")},
+    # a helper of the script that has the name of a host-side builtin is still the script's helper
+    "call-helper-named-help": {"s": ["helper({P})"], "rename": ("helper", "help")},
+    "call-helper-named-input": {"s": ["helper({P})"], "rename": ("helper", "input")},
+    "call-helper-named-exit": {"s": ["helper({P})"], "rename": ("helper", "exit")},
+    "call-helper-named-quit": {"s": ["helper({P})"], "rename": ("helper", "quit")},
+    "call-helper-named-breakpoint": {"s": ["helper({P})"], "rename": ("helper", "breakpoint")},
+    "call-helper-named-vars": {"s": ["helper({P})"], "rename": ("helper", "vars")},
+    "call-helper-named-id": {"s": ["helper({P})"], "rename": ("helper", "id")},
+    "call-helper-named-dir": {"s": ["helper({P})"], "rename": ("helper", "dir")},
     "list-append": {"s": ["xs.append({P})"]},
     "list-remove": {"s": ["xs.remove({P})"]},
     "ternary-assign": {"s": ["v = {P} if v else 0"]},
